@@ -62,6 +62,17 @@ def run(rep):
     # the string-literal theorems are stated over Lexer/LexerModel.v / LexerStrings.v: tie that model to the CURRENT lexer.go (a difference is a broken correspondence)
     import lexcommon
     lexcommon.lexer_premise(rep, broken, ())
+    # value lists of IN are rendered as one tuple literal: the same elements must get the rendering they get as a tuple literal
+    if not any(b["obligation"].startswith("build:") for b in broken):
+        import c09_inlist
+        verif.build_go(("litdump",))
+        mism, summ = c09_inlist.run(rep, 700 if rep.tier == "quick" else 20000)
+        rep.coverage["in_value_lists"] = summ
+        for (src, t, o, which) in mism[:5]:
+            found = True
+            sql = "SELECT x IN " + src + (" AS hit" if which == "in-alias" else "")
+            rep.violation("input", "a literal in the value list of IN prints differently from the same literal in a tuple: %s gives %s, SELECT %s gives Literal %s" % (sql, o[:120], src, t[:120]),
+                          {"sql": sql, "in_rendering": o, "tuple_rendering": t}, input_hex=sql.encode().hex())
     verif.report_broken(rep, broken, found)
     rep.assumptions = ["decimal float texts that overflow float64 (1e999) are outside the property's quantifier (finite float64 values); the code prints them as string literals"]
 
